@@ -260,6 +260,17 @@ def call {Sig : Type} (sigOf : SB → Sig) (c : Cfg Sig) (q : Req) : Option Nat 
     let r := step sigOf c (.req q)
     ((step sigOf (ticksHold sigOf k r.1) .crash).1, .none)
 
+/-- one call during which the state file cannot be written (`WriteFileAtomic` returns an error:
+directory gone, EMFILE, ENOSPC …): `FilePVLastSignState.Save` panics, and a panic of the signer
+is the death of the process (nobody recovers it). On the fresh-signature path the call therefore
+gets as far as `Stage.memSet` and the process dies there; on every other path nothing is written
+and the call completes as usual. -/
+def callFail {Sig : Type} (sigOf : SB → Sig) (c : Cfg Sig) (q : Req) : Cfg Sig × Out Sig :=
+  let r := step sigOf c (.req q)
+  match r.1.pc with
+  | .checked .. => ((step sigOf (ticksHold sigOf 2 r.1) .crash).1, .panic)
+  | _ => ticks sigOf 8 r.1 r.2
+
 /-! ### order on (height, round, step) -/
 def hrsLt (a b : Int × Int × Int) : Prop :=
   a.1 < b.1 ∨ (a.1 = b.1 ∧ (a.2.1 < b.2.1 ∨ (a.2.1 = b.2.1 ∧ a.2.2 < b.2.2)))
